@@ -9,7 +9,7 @@ from common import driver, proof_stage
 import subgen
 
 MODULES = ["CobyqaVerif.Props.C15", "CobyqaVerif.Props.C15Loop", "CobyqaVerif.Props.C15Improve", "CobyqaVerif.Props.C15ImproveFast",
-           "CobyqaVerif.Props.C15ImproveReal", "CobyqaVerif.Props.C15Ctcg"]
+           "CobyqaVerif.Props.C15ImproveReal", "CobyqaVerif.Props.C15Ctcg", "CobyqaVerif.Props.C16Ntcg"]
 LEVEL = "proof"
 OWN = ("bounds", "radius", "inequality", "null-space")
 
